@@ -239,6 +239,12 @@ func createPromise(tags map[string]string, promiseCmd *t_aio.CreatePromiseComman
 			slog.Warn("failed to match promise", "cmd", promiseCmd, "err", err)
 		}
 
+		if taskCmd == nil && err != nil {
+			// the router could not tell whether the promise is routed, creating it
+			// now would store a routed promise without its task
+			return nil, t_api.NewError(t_api.StatusAIOMatchError, err)
+		}
+
 		if taskCmd != nil && (err != nil || !completion.Router.Matched) {
 			slog.Error("failed to match promise with router when creating a task", "cmd", promiseCmd)
 			return nil, t_api.NewError(t_api.StatusPromiseRecvNotFound, err)
